@@ -162,6 +162,11 @@ func check(c libCase) outcome {
 	if res.Panic != "" {
 		return outcome{msg: "Run panicked: " + res.Panic}
 	}
+	// the same Code once more: whatever the first run left behind in the Code
+	// (caches, lazily built tables, memoised failures) must not crash the next
+	if res2 := run.Exec(code, univ.Copy(c.Input.X), steps, maxOuts, univ.Copy(c.Var.X)); res2.Panic != "" {
+		return outcome{msg: "the second Run of the same Code panicked: " + res2.Panic}
+	}
 	for _, v := range res.Vals {
 		if !univ.Valid(v) {
 			return outcome{msg: fmt.Sprintf("emitted a value of an unsupported Go type: %s", univ.Show(v))}
@@ -582,6 +587,38 @@ func TestC08(t *testing.T) {
 		}
 	}
 	rec.Exhaustive(fmt.Sprintf("index/slice/getpath forms (%d) x boundary keys (%d) x path contexts (%d)", len(forms), len(keys), len(ctxs)), ecomplete && rec.Thorough())
+
+	// (T) the same failing or boundary call evaluated several times in one run
+	// and in two runs of one Code (memoised failures, per-Code caches)
+	twice := []string{"test(\"[\")", "test(\"(\")", "test(\"a\"; \"y\")", "[match(\"*\"; \"g\")]", "capture(\"(?<x\")", "sub(\"(\"; \"x\")", "gsub(\"[\"; \"x\")", "[splits(\"+\")]", "[scan(\"(?P<\")]", "split(\"(\"; null)", "test(\"\\\\\")",
+		"test(.)", "test(\"a\"; .)", "ltrimstr(1)", "tonumber", "fromjson", "@base64d", "implode", "strptime(\"%Y\")", "strftime(\"%Q\")", "mktime", "todate", "getpath([\"a\", 0, \"b\"])", "setpath([0, \"a\"]; 1)", "delpaths([[0, \"a\"]])",
+		"error", "error(null)", "input", "$__loc__", "input_filename", "ascii", "@sh", "tojson | fromjson", "splits(\"a\"; \"gx\")", "test(\"a\"; \"gx\")", "test(\"(?i)\" + .)", "[limit(-1; 1)]", "range(1e1000)?", "has(.)", "keys", ".[\"a\"]", ".[0]"}
+	tcomplete := true
+	for ti, q := range twice {
+		if !rec.Mine(ti) {
+			continue
+		}
+		for _, form := range []string{"[.[]? | try (%s) catch \"e\"]", "[(%s)?, (%s)?]", "[try (%s) catch ., try (%s) catch .]", ".[]? | (%s)", "[.[]? | (%s)?] | length", "first(.[]? | try (%s) catch 1), (.[]? | try (%s) catch 2)"} {
+			src := strings.ReplaceAll(form, "%s", q)
+			for _, in := range []any{[]any{"a", "b"}, []any{"[", "[", "("}, []any{1, 1}, []any{nil, "x", nil}, "ab"} {
+				c := mkLib(src, in, nil)
+				rec.Eval()
+				rec.Journal("twice", c)
+				o := check(c)
+				if o.discard != "" {
+					rec.Discard(o.discard)
+					continue
+				}
+				rec.Class("twice/" + o.stage)
+				rec.NT("twice\x00" + src + "\x00" + univ.Show(in))
+				if o.msg != "" {
+					rec.Direct("twice", c, "%s", o.msg)
+					tcomplete = false
+				}
+			}
+		}
+	}
+	rec.Exhaustive(fmt.Sprintf("%d calls evaluated repeatedly in 6 forms on 5 inputs, each Code run twice", len(twice)), tcomplete)
 
 	// (W) wide and deep programs: one construct repeated n times in a single
 	// scope / nesting (tables that are sized by a first guess and grown later)
